@@ -71,17 +71,19 @@ theorem inBounds_of_valuesBetween {c : Cfg} (hc : CfgOrdered c) {x : List Rat} {
 
 /-! ### masks -/
 
-theorem setWhere_not_any {α} (x : List α) (m : List Bool) (v : α) (h : m.any id = false) : Py.setWhere x m v = x := by
+theorem setWhere_not_any {α} (x : List α) (m : List Bool) (v : α) (hlen : m.length = x.length)
+    (h : m.any id = false) : Py.setWhere x m v = x := by
   induction x generalizing m with
   | nil => rfl
   | cons a t ih =>
     cases m with
-    | nil => rfl
+    | nil => simp at hlen
     | cons b ms =>
       simp only [List.any_cons, id, Bool.or_eq_false_iff] at h
+      simp only [List.length_cons, Nat.add_right_cancel_iff] at hlen
       unfold Py.setWhere at ih ⊢
       simp only [List.zip_cons_cons, List.map_cons, h.1, Bool.false_eq_true, if_false]
-      rw [ih ms h.2]
+      rw [ih ms hlen h.2]
 
 theorem any_replicate_true_append (k r : Nat) :
     (List.replicate k true ++ List.replicate r false).any id = decide (0 < k) := by
@@ -176,10 +178,10 @@ theorem setBound_ok {xs out : List Rat} {m : List Bool} {b : ExtRat} (h : setBou
   by_cases ha : m.any id = true
   · rw [if_pos ha] at h
     cases b with
-    | negInf => simp [ExtRat.toRat, Functor.map, Except.map] at h
-    | posInf => simp [ExtRat.toRat, Functor.map, Except.map] at h
+    | negInf => simp [ExtRat.toRat, Except.map] at h
+    | posInf => simp [ExtRat.toRat, Except.map] at h
     | fin q =>
-      simp only [ExtRat.toRat, Functor.map, Except.map] at h
+      simp only [ExtRat.toRat, Except.map] at h
       injection h with h
       exact Or.inr ⟨ha, q, rfl, h.symm⟩
   · rw [if_neg ha] at h
@@ -188,10 +190,155 @@ theorem setBound_ok {xs out : List Rat} {m : List Bool} {b : ExtRat} (h : setBou
 
 /-- … in the form used below: the result is `setWhere xs m q` for some `q` that is the finite bound whenever
     something is selected -/
-theorem setBound_ok' {xs out : List Rat} {m : List Bool} {b : ExtRat} (h : setBound xs m b = .ok out) :
+theorem setBound_ok' {xs out : List Rat} {m : List Bool} {b : ExtRat} (hlen : m.length = xs.length)
+    (h : setBound xs m b = .ok out) :
     ∃ q, out = Py.setWhere xs m q ∧ (m.any id = true → b = .fin q) := by
-  rcases setBound_ok h with ⟨ha, rfl⟩ | ⟨ha, q, hb, rfl⟩
-  · exact ⟨0, (setWhere_not_any xs m 0 ha).symm, fun h => by rw [ha] at h; exact absurd h (by simp)⟩
-  · exact ⟨q, rfl, fun _ => hb⟩
+  rcases setBound_ok h with ⟨ha, he⟩ | ⟨ha, q, hb, he⟩
+  · exact ⟨0, by rw [he, setWhere_not_any xs m 0 hlen ha], fun h => by rw [ha] at h; exact absurd h (by simp)⟩
+  · exact ⟨q, he, fun _ => hb⟩
+
+/-! ### the shape of `step6Full`'s result in sorted order -/
+
+theorem lowerMask_abc {α} (A B C : List α) :
+    lowerMask (A.length : Int) (A ++ (B ++ C)).length
+      = List.replicate A.length true ++ List.replicate (B.length + C.length) false := by
+  have hl : (A ++ (B ++ C)).length = A.length + (B.length + C.length) := by simp
+  rw [hl]; exact lowerMask_eq _ _
+
+theorem upperMask_abc {α} (A B C : List α) :
+    upperMask (C.length : Int) (A ++ (B ++ C)).length
+      = List.replicate (A.length + B.length) false ++ List.replicate C.length true := by
+  have hl' : (A ++ (B ++ C)).length = (A.length + B.length) + C.length := by simp; omega
+  rw [hl']; exact upperMask_eq _ _
+
+theorem fillWhere_segments {α} (X B Z mid : List α) (hm : mid.length = B.length) :
+    fillWhere (X ++ (B ++ Z))
+      (List.replicate X.length false ++ (List.replicate B.length true ++ List.replicate Z.length false)) mid
+      = X ++ (mid ++ Z) := by
+  rw [fillWhere_false_prefix]
+  have h5 : mid = mid ++ [] := by simp
+  conv_lhs => arg 2; arg 3; rw [h5]
+  rw [fillWhere_true_prefix _ _ _ _ _ hm.symm, fillWhere_all_false]
+
+/-- `step6Full` after the sorting and the counting -/
+def step6After (c : Cfg) (fam : IsiFamily) (o : Oracles) (Os OFs Hs Fs : List Rat) (nL nU : Int) (F : List Rat) :
+    Except String Step6Out := do
+  let n := Fs.length
+  let mL := lowerMask nL n
+  let mU := upperMask nU n
+  let mapped ← setBound Fs mL c.lowerBound
+  let mapped ← setBound mapped mU c.upperBound
+  let mN := notMask mL mU
+  let (mapped, br, pre) ←
+    if mN.any id then
+      let OFbt := valuesBetween c OFs
+      if OFbt.length > 0 then do
+        let (v, br, pre) ← adjustBetween c fam o (valuesBetween c Os) OFbt (valuesBetween c Hs)
+          (Py.selectWhere mapped mN) (valuesBetween c Fs)
+        pure (fillWhere mapped mN v, br, pre)
+      else pure (mapped, Branch.noPseudoObs, false)
+    else pure (mapped, Branch.allToBounds, false)
+  pure { nL := nL, nU := nU, branch := br, premapped := pre, mappedSorted := mapped,
+         result := takeIdx mapped (rankOf F) }
+
+/-- the raw counts of `step6Full` -/
+def step6Raw (c : Cfg) (Os Hs Fs : List Rat) : Int × Int :=
+  (if c.hasLowerThreshold then
+      nrToBound c.biasCorrectFrequencies (maskBeyondLower c Os) (maskBeyondLower c Hs) (maskBeyondLower c Fs)
+    else 0,
+   if c.hasUpperThreshold then
+      nrToBound c.biasCorrectFrequencies (maskBeyondUpper c Os) (maskBeyondUpper c Hs) (maskBeyondUpper c Fs)
+    else 0)
+
+/-- `step6Full` is `step6After` on the sorted samples with the final counts (definitional) -/
+theorem step6Full_eq (c : Cfg) (fam : IsiFamily) (o : Oracles) (obs oF H F : List Rat) :
+    step6Full c fam o obs oF H F =
+      step6After c fam o (sortQ obs) (sortQ oF) (sortQ H) (takeIdx F (argsort F))
+        (finalCounts (step6Raw c (sortQ obs) (sortQ H) (takeIdx F (argsort F))).1
+          (step6Raw c (sortQ obs) (sortQ H) (takeIdx F (argsort F))).2 ((takeIdx F (argsort F)).length : Int)).1
+        (finalCounts (step6Raw c (sortQ obs) (sortQ H) (takeIdx F (argsort F))).1
+          (step6Raw c (sortQ obs) (sortQ H) (takeIdx F (argsort F))).2 ((takeIdx F (argsort F)).length : Int)).2 F := rfl
+
+/-- **shape**: with `n_l = |A|`, `n_u = |C|` and the sorted future values `A ++ B ++ C`, the result in sorted order is
+    `[lo]*n_l ++ mid ++ [hi]*n_u`, where `lo` / `hi` are the (finite) bounds whenever they are used and `mid` is either
+    the untouched middle segment or what `_step6_adjust_values_between_thresholds` returned for it -/
+theorem step6After_shape (c : Cfg) (fam : IsiFamily) (o : Oracles) (Os OFs Hs A B C F : List Rat) (r : Step6Out)
+    (hadj : ∀ v br pre, adjustBetween c fam o (valuesBetween c Os) (valuesBetween c OFs) (valuesBetween c Hs) B
+      (valuesBetween c (A ++ (B ++ C))) = .ok (v, br, pre) → v.length = B.length)
+    (h : step6After c fam o Os OFs Hs (A ++ (B ++ C)) (A.length : Int) (C.length : Int) F = .ok r) :
+    ∃ lo hi mid, r.mappedSorted = List.replicate A.length lo ++ (mid ++ List.replicate C.length hi) ∧
+      r.result = takeIdx r.mappedSorted (rankOf F) ∧
+      (A ≠ [] → c.lowerBound = .fin lo) ∧ (C ≠ [] → c.upperBound = .fin hi) ∧
+      mid.length = B.length ∧
+      (mid = B ∨
+       (valuesBetween c OFs ≠ [] ∧ ∃ br pre, adjustBetween c fam o (valuesBetween c Os) (valuesBetween c OFs)
+          (valuesBetween c Hs) B (valuesBetween c (A ++ (B ++ C))) = .ok (mid, br, pre))) := by
+  unfold step6After at h
+  simp only [bind, Except.bind, pure, Except.pure] at h
+  split at h
+  · cases h
+  rename_i m1 hm1
+  split at h
+  · cases h
+  rename_i m2 hm2
+  have lenL : (lowerMask (A.length : Int) (A ++ (B ++ C)).length).length = (A ++ (B ++ C)).length := by
+    rw [lowerMask_abc]; simp
+  obtain ⟨lo, e1, hlo⟩ := setBound_ok' lenL hm1
+  have lenm1 : m1.length = (A ++ (B ++ C)).length := by
+    rw [e1]; unfold Py.setWhere; rw [List.length_map, List.length_zip, lenL]; simp
+  have lenU : (upperMask (C.length : Int) (A ++ (B ++ C)).length).length = m1.length := by
+    rw [lenm1, upperMask_abc]; simp; omega
+  obtain ⟨hi, e2, hhi⟩ := setBound_ok' lenU hm2
+  rw [e1] at e2
+  rw [setBounds_eq] at e2
+  have hA : A ≠ [] → c.lowerBound = .fin lo := by
+    intro hne
+    apply hlo
+    rw [lowerMask_abc, any_replicate_true_append]
+    simpa using List.length_pos_iff.mpr hne
+  have hC : C ≠ [] → c.upperBound = .fin hi := by
+    intro hne
+    apply hhi
+    rw [upperMask_abc, any_false_append_true]
+    simpa using List.length_pos_iff.mpr hne
+  have hmask : notMask (lowerMask (A.length : Int) (A ++ (B ++ C)).length) (upperMask (C.length : Int) (A ++ (B ++ C)).length)
+      = List.replicate A.length false ++ (List.replicate B.length true ++ List.replicate C.length false) := by
+    have : (A ++ (B ++ C)).length = A.length + (B.length + C.length) := by simp
+    rw [this]; exact notMask_abc _ _ _
+  rw [hmask, any_notMask_abc] at h
+  have hsel : Py.selectWhere m2 (List.replicate A.length false ++ (List.replicate B.length true ++ List.replicate C.length false)) = B := by
+    have := selectWhere_segments (List.replicate A.length lo) B (List.replicate C.length hi)
+    simp only [List.length_replicate] at this
+    rw [e2]; exact this
+  have hfill : ∀ mid : List Rat, mid.length = B.length →
+      fillWhere m2 (List.replicate A.length false ++ (List.replicate B.length true ++ List.replicate C.length false)) mid
+        = List.replicate A.length lo ++ (mid ++ List.replicate C.length hi) := by
+    intro mid hm
+    have := fillWhere_segments (List.replicate A.length lo) B (List.replicate C.length hi) mid hm
+    simp only [List.length_replicate] at this
+    rw [e2]; exact this
+  by_cases hB : 0 < B.length
+  · simp only [hB, decide_true, if_true] at h
+    by_cases hOF : (valuesBetween c OFs).length > 0
+    · rw [if_pos hOF, hsel] at h
+      split at h
+      · cases h
+      rename_i v hv
+      injection h with h
+      subst h
+      obtain ⟨mid, br, pre⟩ := v
+      have hl := hadj mid br pre hv
+      refine ⟨lo, hi, mid, hfill mid hl, rfl, hA, hC, hl, Or.inr ⟨?_, br, pre, hv⟩⟩
+      intro he; rw [he] at hOF; simp at hOF
+    · rw [if_neg hOF] at h
+      injection h with h
+      subst h
+      exact ⟨lo, hi, B, e2, rfl, hA, hC, rfl, Or.inl rfl⟩
+  · have hB0 : B = [] := by
+      apply List.length_eq_zero_iff.mp; omega
+    simp only [hB, decide_false, Bool.false_eq_true, if_false] at h
+    injection h with h
+    subst h
+    exact ⟨lo, hi, B, e2, rfl, hA, hC, rfl, Or.inl rfl⟩
 
 end Lemmas.C09
